@@ -9,7 +9,7 @@
    [anc_steps s fs k x a]: in exactly k steps.  [acyclic_source]: content
    addressing (a predecessor embeds its successor's digest). *)
 From Oras Require Import Base.Prelude Model.FindRoots Proofs.FindRoots.
-From Oras Require Import Model.CopySpec Proofs.CopySpec Proofs.FindRootsCopy.
+From Oras Require Import Model.CopySpec Proofs.CopySpec Proofs.FindRootsCopy Proofs.FindRootsMem Proofs.FindRootsAll.
 Local Open Scope nat_scope.
 
 (* Depth <= 0 (any filter stack, in particular none: find_preds s [] = s_preds s):
@@ -56,6 +56,106 @@ Theorem C03_terminates :
 Proof. exact find_roots_terminates. Qed.
 Print Assumptions C03_terminates.
 
+(* A caller may set opts.FindPredecessors itself.  The walk theorems hold for ANY such function
+   (acyclic), and filters stacked on it follow exactly those of its predecessors whose manifest
+   satisfies them. *)
+Theorem C03_any_find_predecessors_unlimited :
+  forall (fp : nat -> list desc) (rank : nat -> nat) (limit : Z) (node : desc) (fuel : nat) (roots : list desc),
+    (forall x p, In p (fp x) -> rank x < rank (d_id p)) -> (limit <= 0)%Z ->
+    find_roots_fp fuel fp limit node = Some roots ->
+    (forall r, In r roots -> Proofs.FindRoots.reach fp (d_id node) (d_id r) /\ fp (d_id r) = []) /\
+    (forall a, Proofs.FindRoots.reach fp (d_id node) a -> fp a = [] -> In a (map d_id roots)) /\
+    (forall a, Proofs.FindRoots.reach fp (d_id node) a -> exists r, In r roots /\ Proofs.FindRoots.reach fp a (d_id r)).
+Proof. exact find_roots_fp_unlimited. Qed.
+Print Assumptions C03_any_find_predecessors_unlimited.
+
+Theorem C03_any_find_predecessors_depth :
+  forall (fp : nat -> list desc) (rank : nat -> nat) (limit : Z) (node : desc) (fuel : nat) (roots : list desc),
+    (forall x p, In p (fp x) -> rank x < rank (d_id p)) -> (0 < limit)%Z ->
+    find_roots_fp fuel fp limit node = Some roots ->
+    (forall r, In r roots ->
+       (exists k, Z.of_nat k <= limit /\ Proofs.FindRoots.path fp k (d_id node) (d_id r))%Z /\
+       (fp (d_id r) = [] \/ Proofs.FindRoots.path fp (Z.to_nat limit) (d_id node) (d_id r))) /\
+    (exists r, In r roots /\ Proofs.FindRoots.reach fp (d_id node) (d_id r)).
+Proof. exact find_roots_fp_depth. Qed.
+Print Assumptions C03_any_find_predecessors_depth.
+
+Theorem C03_custom_filter_exact :
+  forall (s : source) (custom : nat -> list desc) (fs : list filter) (x : nat),
+    Forall (desc_consistent s) (custom x) ->
+    map d_id (find_preds_custom s custom fs x) =
+    List.filter (fun id => forallb (fun f => keep_spec s f id) fs) (map d_id (custom x)).
+Proof. exact find_preds_custom_exact. Qed.
+Print Assumptions C03_custom_filter_exact.
+
+(* Depth <= 0: the SET of roots does not depend on how the source happens to serve its
+   predecessors (order, multiplicity, which optional descriptor fields are present) -- fresh or
+   reopened store, any Go map order. *)
+Theorem C03_roots_order_independent :
+  forall (s1 s2 : source) (fs : list filter) (rank1 rank2 : nat -> nat) (limit : Z) (node : desc)
+         (fuel1 fuel2 : nat) (roots1 roots2 : list desc),
+    (forall x y, In y (map d_id (s_preds s1 x)) <-> In y (map d_id (s_preds s2 x))) ->
+    (forall f y, keep_spec s1 f y = keep_spec s2 f y) ->
+    all_served_ok s1 -> all_served_ok s2 ->
+    acyclic_source s1 rank1 -> acyclic_source s2 rank2 -> (limit <= 0)%Z ->
+    find_roots fuel1 s1 fs limit node = Some roots1 ->
+    find_roots fuel2 s2 fs limit node = Some roots2 ->
+    forall a, In a (map d_id roots1) <-> In a (map d_id roots2).
+Proof. exact roots_unlimited_order_independent. Qed.
+Print Assumptions C03_roots_order_independent.
+
+(* The call sequence (an intermediate observable compared with the implementation on every
+   case): the logging loop returns the same roots, and opts.FindPredecessors is called at most
+   once per node. *)
+Theorem C03_calls_once :
+  forall (fuel : nat) (s : source) (fs : list filter) (limit : Z) (node : desc) (roots : list desc) (calls : list nat),
+    find_roots_log fuel s fs limit node = Some (roots, calls) ->
+    find_roots fuel s fs limit node = Some roots /\ NoDup calls.
+Proof. exact find_roots_log_spec. Qed.
+Print Assumptions C03_calls_once.
+
+(* The extracted runner executes the loop with the depth arithmetic re-read from findRoots by
+   the translator (start depth, stop condition, pushed depth); it is the proved loop. *)
+Theorem C03_runner_is_model :
+  forall (fuel : nat) (s : source) (fs : list filter) (limit : Z) (node : desc),
+    find_roots_run fuel (find_preds s fs) limit node = find_roots_log fuel s fs limit node.
+Proof. exact find_roots_run_eq. Qed.
+Print Assumptions C03_runner_is_model.
+
+(* likewise the filters: the runner executes them with the keep closures and fetch guards
+   re-read from FilterAnnotation / FilterArtifactType *)
+Theorem C03_runner_filters_are_model :
+  forall (s : source) (fs : list filter) (x : nat),
+    find_preds_g s fs x = find_preds s fs x /\
+    forall custom, find_preds_custom_g s custom fs x = find_preds_custom s custom fs x.
+Proof. exact (fun s fs x => conj (find_preds_g_eq s fs x) (fun c => find_preds_custom_g_eq s c fs x)). Qed.
+Print Assumptions C03_runner_filters_are_model.
+
+(* Failing source operations (Predecessors / Referrers / the Fetch of a missing field), any
+   position k of the armed fault: when findRoots nevertheless succeeds, its result is the
+   fault-free one -- no error is swallowed into a partial predecessor list or root set; so
+   every theorem above applies to every successful call.  Without a fault the error-aware
+   model is the plain one. *)
+Theorem C03_errors_surface :
+  forall (fuel : nat) (s : source) (fs : list filter) (limit : Z) (node : desc) (k : nat) (roots : list desc),
+    find_roots_e fuel s fs limit node k = ROk roots -> find_roots fuel s fs limit node = Some roots.
+Proof. exact find_roots_e_success. Qed.
+Print Assumptions C03_errors_surface.
+
+Theorem C03_no_fault_agrees :
+  forall (fuel : nat) (s : source) (fs : list filter) (limit : Z) (node : desc),
+    find_roots_e fuel s fs limit node 0 =
+    match find_roots fuel s fs limit node with Some roots => ROk roots | None => RFuel end.
+Proof. exact find_roots_e_nofault. Qed.
+Print Assumptions C03_no_fault_agrees.
+
+(* a reached fault is an error: e.g. the very first operation *)
+Theorem C03_first_operation_fails :
+  forall (fuel : nat) (s : source) (fs : list filter) (limit : Z) (node : desc),
+    (limit <= 0)%Z -> find_roots_e (S fuel) s fs limit node 1 = RErr.
+Proof. exact find_roots_e_first_op. Qed.
+Print Assumptions C03_first_operation_fails.
+
 (* Filters: whatever descriptors the source serves ([served_ok]: fields present or
    missing, as long as present fields are the manifest's; complete when the source
    is a ReferrerLister, whose first filter does not fetch), a predecessor is followed exactly
@@ -68,6 +168,16 @@ Theorem C03_filter_exact :
     List.filter (fun id => forallb (fun f => keep_spec s f id) fs) (map d_id (s_preds s x)).
 Proof. exact find_preds_exact. Qed.
 Print Assumptions C03_filter_exact.
+
+(* no hypothesis on the descriptors is left for a store that serves plain descriptors (a reloaded
+   OCI layout since fix fda86b1; the harness asserts it on every reopened source) *)
+Theorem C03_filter_exact_plain :
+  forall (s : source) (fs : list filter) (x : nat),
+    s_lister s = false -> Forall plain_desc (s_preds s x) ->
+    map d_id (find_preds s fs x) =
+    List.filter (fun id => forallb (fun f => keep_spec s f id) fs) (map d_id (s_preds s x)).
+Proof. exact find_preds_exact_plain. Qed.
+Print Assumptions C03_filter_exact_plain.
 
 Theorem C03_filter_followed_iff :
   forall (s : source) (fs : list filter) (x y : nat),
@@ -103,6 +213,42 @@ Theorem C03_depth_bounds_by_content :
     (exists r, In r roots /\ anc_spec s fs (d_id node) (d_id r)).
 Proof. exact find_roots_depth_by_content. Qed.
 Print Assumptions C03_depth_bounds_by_content.
+
+(* Sources backed by graph.Memory (memory, OCI layout, file store): composed with C07's theorem
+   (Predecessors is exact after every history of Index / Remove / IndexAll), the walk is a walk
+   over the LINKS of the stored content.  [backed_by s gm]: the store serves graph.Memory's
+   predecessor sets; [followed_links]: y is stored, its content links to x (subject, config, layer,
+   manifest, blob) and its manifest satisfies the filters; [content_acyclic]: content addressing.
+   No source-level acyclicity or inverse-link hypothesis is left. *)
+Theorem C03_roots_unlimited_memory_backed :
+  forall (ct : GM.amap) (fuelm : nat) (ops : list GM.op) (s : source) (fs : list filter)
+         (rank : GM.node -> nat) (limit : Z) (node : desc) (fuel : nat) (roots : list desc),
+    let gm := GM.s_g (fst (GM.run ct fuelm GM.init_state ops)) in
+    let R := followed_links (GM.ctab ct) gm s fs in
+    let up a c := exists k, rpath R k a c in
+    backed_by s gm -> all_served_ok s -> content_acyclic (GM.ctab ct) rank -> (limit <= 0)%Z ->
+    find_roots fuel s fs limit node = Some roots ->
+    (forall r, In r roots -> up (d_id node) (d_id r) /\ forall y, ~ R (d_id r) y) /\
+    (forall a, up (d_id node) a -> (forall y, ~ R a y) -> In a (map d_id roots)) /\
+    (forall a, up (d_id node) a -> exists r, In r roots /\ up a (d_id r)).
+Proof. exact roots_unlimited_memory_backed. Qed.
+Print Assumptions C03_roots_unlimited_memory_backed.
+
+Theorem C03_memory_backed_inverse_link :
+  forall (ct : GM.amap) (fuelm : nat) (ops : list GM.op) (s : source),
+    let gm := GM.s_g (fst (GM.run ct fuelm GM.init_state ops)) in
+    backed_by s gm ->
+    forall x p, In p (s_preds s x) -> In (N.of_nat x) (GM.ctab ct (N.of_nat (d_id p))).
+Proof. exact backed_pred_is_inverse_link. Qed.
+Print Assumptions C03_memory_backed_inverse_link.
+
+Example C03_ex_memory_backed :
+  backed_by src_mem_two (GM.s_g (fst (GM.run ct_two 10 GM.init_state ops_two))) /\
+  all_served_ok src_mem_two /\
+  content_acyclic (GM.ctab ct_two) N.to_nat /\
+  find_roots (fuel_for src_mem_two 3) src_mem_two [] 0%Z (mkDesc 0 [] None)
+    = Some [mkDesc 2 [] None; mkDesc 1 [] None].
+Proof. exact ex_backed. Qed.
 
 (* The pinned source (before the fix: commit c24ca78 of the repository branch)
    violated it: fetchArtifactType answered with the config media type of an image
@@ -268,6 +414,76 @@ Example C03_ex_two_roots_only :
   extended_copy_run_only g_two [] [1; 2; 0] [mkDesc 2 [] None; mkDesc 1 [] None].
 Proof. exact ex_two_roots_only. Qed.
 
+(* THE PROPERTY's first sentence for sources backed by graph.Memory (memory, OCI layout, file
+   store), composed from C07 (Predecessors exact after EVERY history [ops] of Index / Remove /
+   IndexAll), this property's walk, and C01's copy transition system: after a successful
+   ExtendedCopyGraph with unlimited depth and no filter the destination holds every node [x]
+   reachable through links from any stored node [a] that reaches the given node through links
+   ([up_links]: paths over "y is stored and its content links to x").  Left as hypotheses: the
+   store serves graph.Memory's sets ([backed_by], checked by the harness on every case), both
+   models mean the same content.Successors ([links_agree]), content addressing, C01's
+   mt_consistent, and that the real copy phase is an accepted run ([extended_copy_run]). *)
+Theorem C03_property_unlimited_memory_backed :
+  forall (ct : GM.amap) (fuelm : nat) (ops : list GM.op) (s : source) (g : graph) (nd : desc)
+         (final : list node),
+    backed_by s (GM.s_g (fst (GM.run ct fuelm GM.init_state ops))) ->
+    (forall p x, In (N.of_nat x) (GM.ctab ct (N.of_nat p)) <-> In x (g_succ g p)) ->
+    (forall a, anc s [] (d_id nd) a -> g_foreign g a = false) ->
+    forall (rank : GM.node -> nat) (limit : Z) (fuel : nat) (roots : list desc),
+    content_acyclic (GM.ctab ct) rank -> mt_consistent g -> (limit <= 0)%Z ->
+    find_roots fuel s [] limit nd = Some roots ->
+    extended_copy_run g final roots ->
+    forall a, up_links ct fuelm ops (d_id nd) a ->
+    forall x, Proofs.CopySpec.reach g a x -> has g final x = true.
+Proof. exact property_unlimited. Qed.
+Print Assumptions C03_property_unlimited_memory_backed.
+
+(* ... its second sentence, Depth = d > 0: the given node's own graph is held, and nothing new
+   lies outside the graphs of stored nodes at most d link steps above the given node
+   ([extended_copy_run_only]: the copy phase dispatched only roots that findRoots returned;
+   d0 = what the destination held before) *)
+Theorem C03_property_depth_memory_backed :
+  forall (ct : GM.amap) (fuelm : nat) (ops : list GM.op) (s : source) (g : graph) (nd : desc)
+         (d0 final : list node),
+    backed_by s (GM.s_g (fst (GM.run ct fuelm GM.init_state ops))) ->
+    (forall p x, In (N.of_nat x) (GM.ctab ct (N.of_nat p)) <-> In x (g_succ g p)) ->
+    (forall a, anc s [] (d_id nd) a -> g_foreign g a = false) ->
+    forall (rank : GM.node -> nat) (limit : Z) (fuel : nat) (roots : list desc),
+    content_acyclic (GM.ctab ct) rank -> mt_consistent g -> (0 < limit)%Z ->
+    find_roots fuel s [] limit nd = Some roots ->
+    extended_copy_run g final roots -> extended_copy_run_only g d0 final roots ->
+    (forall x, Proofs.CopySpec.reach g (d_id nd) x -> has g final x = true) /\
+    (forall x, In x final ->
+       In x d0 \/
+       exists a k, (Z.of_nat k <= limit)%Z /\
+         rpath (link_up (GM.ctab ct) (GM.s_g (fst (GM.run ct fuelm GM.init_state ops)))) k (d_id nd) a /\
+         Proofs.CopySpec.reach g a x).
+Proof. exact property_depth. Qed.
+Print Assumptions C03_property_depth_memory_backed.
+
+(* ... and with filters (unlimited depth): everything below every stored node that reaches the
+   given node through links whose manifests satisfy the filters *)
+Theorem C03_property_filtered_memory_backed :
+  forall (ct : GM.amap) (fuelm : nat) (ops : list GM.op) (s : source) (fs : list filter) (g : graph)
+         (nd : desc) (final : list node),
+    backed_by s (GM.s_g (fst (GM.run ct fuelm GM.init_state ops))) -> all_served_ok s ->
+    (forall p x, In (N.of_nat x) (GM.ctab ct (N.of_nat p)) <-> In x (g_succ g p)) ->
+    (forall a, anc s fs (d_id nd) a -> g_foreign g a = false) ->
+    forall (rank : GM.node -> nat) (limit : Z) (fuel : nat) (roots : list desc),
+    content_acyclic (GM.ctab ct) rank -> mt_consistent g -> (limit <= 0)%Z ->
+    find_roots fuel s fs limit nd = Some roots ->
+    extended_copy_run g final roots ->
+    forall a, (exists k, rpath (followed_links (GM.ctab ct) (GM.s_g (fst (GM.run ct fuelm GM.init_state ops))) s fs)
+                               k (d_id nd) a) ->
+    forall x, Proofs.CopySpec.reach g a x -> has g final x = true.
+Proof. exact property_filtered. Qed.
+Print Assumptions C03_property_filtered_memory_backed.
+
+Example C03_ex_property_all :
+  forall a, up_links ct_two 10 ops_two (d_id (mkDesc 0 [] None)) a ->
+  forall x, Proofs.CopySpec.reach g_two a x -> has g_two [1; 2; 0] x = true.
+Proof. exact ex_property_all. Qed.
+
 (* ExtendedCopy = Resolve; ExtendedCopyGraph; Tag: on success the destination
    reference (source reference when left blank) names the given node *)
 Theorem C03_tagged :
@@ -277,6 +493,25 @@ Theorem C03_tagged :
     resolve_tag (if is_empty dst_ref then src_ref else dst_ref) tags' = Some (d_id node).
 Proof. exact extended_copy_tags. Qed.
 Print Assumptions C03_tagged.
+
+(* ... and when it fails, the error is that of the first failing step, in the order Resolve
+   (source), FindPredecessors (source), copy of the roots, Tag (destination) *)
+Theorem C03_error_origin :
+  forall resolve roots_ok copy_ok tag_ok src_ref dst_ref tags,
+    match extended_copy_x resolve roots_ok copy_ok tag_ok src_ref dst_ref tags with
+    | XOk node tags' =>
+        extended_copy resolve (fun _ => (roots_ok && copy_ok)%bool) tag_ok src_ref dst_ref tags = Some (node, tags')
+    | XErr op =>
+        extended_copy resolve (fun _ => (roots_ok && copy_ok)%bool) tag_ok src_ref dst_ref tags = None /\
+        match op with
+        | OpResolve => resolve src_ref = None
+        | OpFindPredecessors => resolve src_ref <> None /\ roots_ok = false
+        | OpCopy => resolve src_ref <> None /\ roots_ok = true /\ copy_ok = false
+        | OpTag => resolve src_ref <> None /\ roots_ok = true /\ copy_ok = true /\ tag_ok = false
+        end
+    end.
+Proof. exact extended_copy_x_spec. Qed.
+Print Assumptions C03_error_origin.
 
 (* ---- the hypotheses are satisfiable; concrete runs of the model ----
    (sources ex_source, ex_remote, diamond_source: Proofs/FindRoots.v) *)
